@@ -234,7 +234,12 @@ class FastaIndex():
 
     def _read_header(self):
         if self.mode == 'db':
-            self.db = dbm.open(self.dbname)
+            # open an existing database read-write ('w' does not create it), so that
+            # add() also works on an index that was opened again (e.g. `sugar index add`)
+            try:
+                self.db = dbm.open(self.dbname, flag='w')
+            except dbm.error:  # e.g. read-only media: queries still work
+                self.db = dbm.open(self.dbname)
             self.path, *self.files = self.db['header'].decode('latin1').split(',')
         else:
             self.db = FastaBinarySearchFile(self.dbname)
